@@ -1,10 +1,10 @@
 package main
 
 import (
+	"fmt"
 	"go/token"
 	"go/types"
 	"sort"
-	"fmt"
 	"strings"
 
 	"golang.org/x/tools/go/ssa"
@@ -12,10 +12,10 @@ import (
 
 func init() {
 	register(&ruleSet{
-		id:         "C12",
-		title:      "reported error positions are consistent with, and point into, the program text",
-		run:        runC12,
-		decided:    "every SyntaxError / RuntimeError value is built in one of three funnel functions, each of which fills Line, Col and SrcLine from the three results of one GetLineAndCol call on the lexer that owns the program text, unmodified; the offset / token handed to a funnel is derived from the node being evaluated, the parser's current token or the lexer's cursor — never a constant or a zero token; synthetic tokens copy the position of the real operator; no lexical error is dropped by the parser (a dropped one is reported later from a stale cursor); the CLI renders exactly the fields of the error it was given." +
+		id:    "C12",
+		title: "reported error positions are consistent with, and point into, the program text",
+		run:   runC12,
+		decided: "every SyntaxError / RuntimeError value is built in one of three funnel functions, each of which fills Line, Col and SrcLine from the three results of one GetLineAndCol call on the lexer that owns the program text, unmodified; the offset / token handed to a funnel is derived from the node being evaluated, the parser's current token or the lexer's cursor — never a constant or a zero token; synthetic tokens copy the position of the real operator; no lexical error is dropped by the parser (a dropped one is reported later from a stale cursor); the CLI renders exactly the fields of the error it was given." +
 			" No err.Error() is applied to an error that already carries a position (no re-positioning at another node); on every path to the `unexpected character` error exactly one byte has been consumed since the token start, so cursor-1 is that byte." +
 			" GetLineAndCol compares the position with every byte offset of the text (not with rune starts).",
 		notDecided: "that GetLineAndCol returns the right line / column / text for every byte offset is decided only as a shape oracle of its one-scan algorithm (R7: every byte offset is compared with the position, which is what the defect named in the property's why_tests_cant violated; R8: line counter, line start, column and quoted text are updated as the oracle says); a different algorithm is UNDECIDED. Which token a node's representative token is (ast.go Token methods) is not decided.",
@@ -119,8 +119,26 @@ func runC12(c *Ctx) {
 				okP = positionFromNode(p, fn, arg)
 			case "(*lang.Parser).error":
 				okP = strings.Contains(r, "p.current.Pos") || positionFromNode(p, fn, arg) || strings.Contains(r, ".Token().Pos")
+			}
+			if shortName(fnl) == "(*lang.Parser).error" && strings.Contains(r, "p.current.Pos") {
+				// the error is about the token that was tested: a test that looks only at the token already
+				// consumed (Parser.previous) must not be reported at the cursor, which is the token after it
+				// (possibly on a later line)
+				if cond := controllingCond(cs); cond != nil {
+					prev, cur := readsParserToken(cond)
+					c.check(!(prev && !cur), "R2", "tested-token-position in "+shortName(fn)+": "+p.RenderShort(cond), p.InstrPos(cs), "the error is positioned at the token its test looked at", "the test that leads to this error looks at the token already consumed (Parser.previous) but the error is positioned at Parser.current, the token after it: the line / column are those of the following token, not of the offending one")
+				}
+			}
+			switch shortName(fnl) {
 			case "(*lang.Lexer).error":
 				okP = strings.Contains(r, "l.tokenStart") || strings.Contains(r, "l.pos") || r == "pos"
+				// the position is that of a byte that exists and belongs to the token being read: its first
+				// byte, or the byte just consumed. `tokenStart + k` may be the end of the text (no column is
+				// found for it) or a newline that follows the token's first byte (reported on the next line).
+				if okP {
+					exists := r == "l.tokenStart" || r == "(l.pos - 1)" || r == "pos"
+					c.check(exists, "R2", "lexer-position-exists "+r+" in "+shortName(fn), p.InstrPos(cs), "the first byte of the token or the byte just consumed", "a lexical error is positioned at "+r+", which need not be a byte of the offending token: at the end of the text no column is found for it (column 1 is reported), and when that byte is a newline the error is reported on the following line")
+				}
 			}
 			if _, isConst := arg.(*ssa.Const); isConst {
 				okP = false
@@ -620,4 +638,59 @@ func c12LineColArithmetic(c *Ctx) {
 	}
 	sort.Strings(texts)
 	c.check(strings.Join(texts, " ; ") == "src[lineStart:] ; src[lineStart:i] at a newline", "R8", "source-line", p.Pos(gl.Pos()), "the quoted line runs from the line start to the next newline (or the end of the text)", "the returned source line is {"+strings.Join(texts, " ; ")+"}")
+}
+
+// controllingCond: the condition of the nearest branch that decides whether the instruction is
+// reached (the If of the closest dominator one of whose edges does not lead to it).
+func controllingCond(in ssa.Instruction) ssa.Value {
+	b := in.Block()
+	for d := b.Idom(); d != nil; d = d.Idom() {
+		ifi, ok := d.Instrs[len(d.Instrs)-1].(*ssa.If)
+		if !ok {
+			continue
+		}
+		r0 := d.Succs[0] == b || reachableFrom([]*ssa.BasicBlock{d.Succs[0]}, map[*ssa.BasicBlock]bool{d: true})[b]
+		r1 := d.Succs[1] == b || reachableFrom([]*ssa.BasicBlock{d.Succs[1]}, map[*ssa.BasicBlock]bool{d: true})[b]
+		if r0 != r1 {
+			return ifi.Cond
+		}
+	}
+	return nil
+}
+
+// readsParserToken: does the value depend on Parser.previous / Parser.current (through loads, field
+// selections, operators, conversions and call arguments)?
+func readsParserToken(v ssa.Value) (prev, cur bool) {
+	seen := map[ssa.Value]bool{}
+	var walk func(v ssa.Value, d int)
+	walk = func(v ssa.Value, d int) {
+		if v == nil || seen[v] || d > 10 {
+			return
+		}
+		seen[v] = true
+		if fa, ok := v.(*ssa.FieldAddr); ok {
+			if sf, ok := fieldOfAddr(fa); ok && sf.Struct != nil && sf.Struct.Obj().Name() == "Parser" {
+				switch sf.Name {
+				case "previous":
+					prev = true
+				case "current":
+					cur = true
+				}
+			}
+		}
+		in, ok := v.(ssa.Instruction)
+		if !ok {
+			return
+		}
+		if _, isPhi := v.(*ssa.Phi); isPhi {
+			return
+		}
+		for _, op := range in.Operands(nil) {
+			if *op != nil {
+				walk(*op, d+1)
+			}
+		}
+	}
+	walk(v, 0)
+	return
 }
